@@ -26,8 +26,8 @@ Inductive ty :=
 | Cont (k : ckind) (t : ty)        (* List[t] Set[t] Tuple[t, ...] Sequence[t] *)
 | TypeOf (t : ty)                  (* Type[t] *)
 | Fwd (n : name)                   (* a name still to be resolved: "N", or any name under postponed evaluation *)
+| OptionalL (t : ty)               (* Union[None, t]: same type as Optional[t], arguments in the other order (supported since 90ccf0e) *)
 (* ---- outside the supported grammar ---- *)
-| OptionalL (t : ty)               (* Union[None, t]: same type as Optional[t], arguments in the other order *)
 | Pep604 (t : ty)                  (* t | None  (types.UnionType) *)
 | DictOf (k v : ty)                (* Dict[k, v] *)
 | Bare (o : origin)                (* typing.List, typing.Type, ... without parameters *)
@@ -89,7 +89,7 @@ Lemma ty_eqb_refl a : ty_eqb a a = true.
 Proof. now apply ty_eqb_eq. Qed.
 
 (* ------------------------------------------------------------------ exceptions and the result monad *)
-Inductive exn := TypeError | ValueError | IndexError | AttributeError | MissingContainedTypeOfContainer | NameError.
+Inductive exn := TypeError | ValueError | IndexError | AttributeError | MissingContainedTypeOfContainer | NameError | StopIteration.
 Inductive res (A : Type) := Ok (a : A) | Raise (e : exn).
 Arguments Ok {A} a.
 Arguments Raise {A} e.
@@ -104,7 +104,8 @@ Definition mnot (a : res bool) : res bool := bind a (fun x => Ok (negb x)).
 Definition exn_eqb (a b : exn) : bool :=
   match a, b with
   | TypeError, TypeError | ValueError, ValueError | IndexError, IndexError | AttributeError, AttributeError
-  | MissingContainedTypeOfContainer, MissingContainedTypeOfContainer | NameError, NameError => true
+  | MissingContainedTypeOfContainer, MissingContainedTypeOfContainer | NameError, NameError
+  | StopIteration, StopIteration => true
   | _, _ => false
   end.
 Definition try_except {A} (a : res A) (e : exn) (b : res A) : res A :=
@@ -145,6 +146,9 @@ Definition origin_in (o : origin) (l : list origin) : bool := existsb (origin_eq
 Definition ty_in (t : ty) (l : list ty) : bool := existsb (ty_eqb t) l.
 (* xs[0] *)
 Definition index0 {A} (l : list A) : res A := match l with x :: _ => Ok x | [] => Raise IndexError end.
+(* next(x for x in xs if f x): the first element that passes, StopIteration when none does *)
+Fixpoint next_where {A} (f : A -> bool) (l : list A) : res A :=
+  match l with [] => Raise StopIteration | x :: l' => if f x then Ok x else next_where f l' end.
 (* issubclass(t, enum.Enum): TypeError unless t is a class *)
 Definition issubclass_enum (t : ty) : res bool :=
   match t with
@@ -174,16 +178,17 @@ Record wfield := { resolved_type : ty; has_default : bool; has_default_factory :
 (* ------------------------------------------------------------------ the supported grammar *)
 Definition is_base (t : ty) : bool :=
   match t with Builtin BNoneType => false | Builtin _ | Cls _ | Enum _ => true | _ => false end.
-(* resolved annotations of the supported grammar: a base type, Optional of one, a container of one, Type of one *)
+(* resolved annotations of the supported grammar: a base type, Optional of one (None written last or first),
+   a container of one, Type of one *)
 Definition wf_ty (t : ty) : bool :=
   match t with
-  | Optional a | Cont _ a | TypeOf a => is_base a
+  | Optional a | OptionalL a | Cont _ a | TypeOf a => is_base a
   | _ => is_base t
   end.
 (* declared annotations: the same with names not yet resolved at the leaves *)
 Definition is_base_decl (t : ty) : bool := match t with Fwd _ => true | _ => is_base t end.
 Definition wf_ann (t : ty) : bool :=
   match t with
-  | Optional a | Cont _ a | TypeOf a => is_base_decl a
+  | Optional a | OptionalL a | Cont _ a | TypeOf a => is_base_decl a
   | _ => is_base_decl t
   end.
